@@ -395,7 +395,7 @@ fn case_strategy(kinds: usize, max_len: usize) -> impl Strategy<Value = Case> {
 pub fn def() -> PropDef {
     PropDef {
         id: "C01",
-        rule: "values built by a byte-driven structured generator for every built-in type, every generated service structure / enum (all types parsed from lib/src/types/service_types) and every SupportedMessage variant; oracle = byte_len==bytes written, decoder consumes exactly those bytes (sentinels on both sides), decoded==original up to the listed normalisations, and a second encode/decode generation; non-trivial = value contains a container (array, nested variant, data value, extension object, optional array) or exercises a listed normalisation; distinct = distinct (type, generator bytes)",
+        rule: "values built by a byte-driven structured generator for every built-in type, every generated service structure / enum (all types parsed from lib/src/types/service_types) and every SupportedMessage variant; oracle = byte_len==bytes written, decoder consumes exactly those bytes (sentinels on both sides), decoded==original up to the listed normalisations, and a second encode/decode generation; non-trivial = value contains a container (array, nested variant, data value, extension object, optional array) or exercises a listed normalisation; distinct = distinct (type, generator bytes); thorough adds a libFuzzer campaign (target c01_roundtrip: whatever decodes is a value; its encoding must decode completely and decode.encode must be idempotent on it)",
         assumptions: &[
             "equality falls back to the derived Debug rendering for NaN payloads and for the dimensions of empty arrays",
             "LocalizedText null/empty parts and out-of-range DateTime are generated at top level only (nested values are generated in normal form)",
@@ -409,6 +409,10 @@ pub fn def() -> PropDef {
                 part("enums", tier.pick(2_000, 40_000), case_strategy(ENUM_TYPE_NAMES.len(), 8), enum_type),
                 part("messages", tier.pick(12_000, 400_000), case_strategy(MESSAGE_NAMES.len(), 500), message),
             ]
+            .into_iter()
+            // decode-as-generator: whatever decodes is a value (including non-canonical forms no constructive generator builds)
+            .chain(if tier == Tier::Thorough { Some(part_fuzz("libfuzzer_c01_roundtrip", "c01_roundtrip", 4_000_000, 1024)) } else { None })
+            .collect()
         },
     }
 }
